@@ -236,3 +236,20 @@ def cmp_on_side(e, side):
     if neg != (not side):
         op = NEGATE[op]
     return op, a, b
+
+
+def error_blocks(f):
+    """blocks that create an error value: `?` residual conversion, `Err(..)` / `None` construction.  A path that passes one
+    of them is an error path; in a view with helpers spliced in, this is what keeps a path from leaving a helper through
+    its error exit and continuing on the caller's success edge (the search is not value-sensitive)."""
+    from .core import FROM_RESIDUAL
+    out = set()
+    for bb in f.reachable_blocks():
+        b = f.blocks[bb]
+        t = b['term']
+        if t['k'] == 'call' and callee_of(t) in FROM_RESIDUAL:
+            out.add(bb)
+        for st in b['stmts']:
+            if st['k'] == 'assign' and st['rv']['k'] == 'agg' and st['rv'].get('adt') == 'core::result::Result' and st['rv'].get('variant') == 'Err':
+                out.add(bb)
+    return out
